@@ -269,6 +269,20 @@ func (ex *Exec) allocFact(r Val, t types.Type) {
 // specialCall: modelled standard-library calls with effects.
 func (ex *Exec) specialCall(callee *ssa.Function, c *ssa.Call, args []Val) bool {
 	switch callee.String() {
+	case "unicode/utf8.DecodeRuneInString", "unicode/utf8.DecodeRune":
+		// assumed contract of the standard library: for a non-empty input the width is between 1
+		// and len(s) (4 at most), the rune is a valid code point or RuneError
+		r := ex.freshResult(c)
+		ln := ex.lenOf(args[0], c.Common().Args[0].Type())
+		if len(r.Tup) == 2 {
+			ex.assumeHere(fmt.Sprintf("(and (=> (> %s 0) (and (<= 1 %s) (<= %s %s) (<= %s 4))) (=> (= %s 0) (= %s 0)) (<= 0 %s) (<= %s 1114111))", ln, r.Tup[1].T, r.Tup[1].T, ln, r.Tup[1].T, ln, r.Tup[1].T, r.Tup[0].T, r.Tup[0].T))
+		}
+		ex.e.note("assumed contract: utf8.DecodeRuneInString returns 1 <= width <= len(s) for non-empty s")
+		ex.vals[c] = r
+		return true
+	case "unicode.IsSpace", "unicode.IsDigit", "unicode.IsLetter", "unicode.Is", "unicode.IsUpper", "unicode.IsLower":
+		ex.setResult(c, ex.env.ufCall(callee, args, c.Type()))
+		return true
 	case "(*sync.Mutex).Lock", "(*sync.Mutex).Unlock", "(*sync.RWMutex).Lock", "(*sync.RWMutex).Unlock":
 		// ghost lock state: which mutexes this activation holds
 		ex.e.regHeap("lockheld", "(Array Ref Bool)")
@@ -912,6 +926,8 @@ func (ex *Exec) modSet(blocks map[*ssa.BasicBlock]bool) (map[string]bool, bool) 
 					continue
 				}
 				switch callee.String() {
+				case "unicode/utf8.DecodeRuneInString", "unicode/utf8.DecodeRune", "unicode.IsSpace", "unicode.IsDigit", "unicode.IsLetter", "unicode.Is", "unicode.IsUpper", "unicode.IsLower", "(*sync.Mutex).Lock", "(*sync.Mutex).Unlock":
+					continue
 				case "sync/atomic.LoadUint32", "sync/atomic.LoadInt32", "sync/atomic.LoadUint64", "sync/atomic.LoadInt64":
 					continue
 				case "sync/atomic.StoreUint32", "sync/atomic.StoreInt32", "sync/atomic.StoreUint64", "sync/atomic.StoreInt64":
